@@ -640,6 +640,10 @@ CHECKS["C14"].update({
              "transform_preserves_members_any_visitor (no NoWrap: under drop/wrap directive visitors only a field's resolver may change, to a "
              "wrapper's id), extendO_closed_wf / extendO_frames_source (extend_schema with the document's implements clauses and the code's "
              "dict order, extendOrder); "
+             "HIDDEN - visibility_hides_members / visibility_hides_directives / directive_drops_fields (hidden fields, input fields, directives and "
+             "fields dropped by a schema directive are in no list of the result, healing included), visibility_members_exact (without hidden types "
+             "every member list is the source's filtered by the predicate: the lower bound of the Sub2 theorems; VisibleMembersKept is the named open "
+             "lower bound when types are hidden too); config_fixed (currentCfg = Cfg.fixed := rfl: no current_* theorem takes a flag hypothesis); "
              "REFINEMENT - clone_is_copy_then_exact_heal, clone_refines (the by-name dump of every type of a clone equals the source's for every "
              "interpretation of resolver ids / defaults), clone_refines_directives, clone_types_perm / clone_types_order (dict order of the clone = order of "
              "Schema.__init__'s type map; 'same order as the source' refuted, not part of the property), clone_registries_total. The ten `_partial` "
